@@ -943,7 +943,8 @@ def determine(chord, shorthand=False, no_inversions=False, no_polychords=False):
     if chord == []:
         return []
     elif len(chord) == 1:
-        return chord
+        # a new list, like every other answer: not the caller's own
+        return list(chord)
     elif len(chord) == 2:
         return [intervals.determine(chord[0], chord[1])]
     elif len(chord) == 3:
